@@ -560,8 +560,10 @@ type Clause struct {
 }
 
 type LoopSpec struct {
-	Invariants []Clause
-	Decreases  *Clause
+	Invariants  []Clause
+	Decreases   *Clause
+	Modifies    []AssignLoc
+	HasModifies bool
 }
 
 type AssignLoc struct {
@@ -821,6 +823,29 @@ func parseSpecFile(path string, pkgName string) (*SpecFile, error) {
 				ls = &LoopSpec{}
 				cur.Loops[ord] = ls
 			}
+			if what == "modifies" {
+				ls.HasModifies = true
+				if p.isId("nothing") {
+					break
+				}
+				for p.peek().k != "eof" {
+					start := p.p
+					e, err := p.parseAssignLoc()
+					if err != nil {
+						return nil, err
+					}
+					var txt []string
+					for _, t := range p.toks[start:p.p] {
+						txt = append(txt, t.v)
+					}
+					e.Text = strings.Join(txt, "")
+					ls.Modifies = append(ls.Modifies, e)
+					if p.isOp(",") {
+						p.p++
+					}
+				}
+				break
+			}
 			label := ""
 			if p.peek().k == "id" && p.peekAt(1).k == "op" && p.peekAt(1).v == ":" {
 				label = p.next().v
@@ -1000,6 +1025,18 @@ func (p *parser) parseSigParams() ([]string, error) {
 }
 
 func (p *parser) parseAssignLoc() (AssignLoc, error) {
+	// spare(x): the cells of x's backing array beyond its length (written by an in-place append)
+	if p.isId("spare") && p.peekAt(1).k == "op" && p.peekAt(1).v == "(" {
+		p.p += 2
+		inner, err := p.parseAssignLoc()
+		if err != nil {
+			return AssignLoc{}, err
+		}
+		if err := p.expectOp(")"); err != nil {
+			return AssignLoc{}, err
+		}
+		return AssignLoc{E: &SCall{Fun: "spare", Args: []SExpr{inner.E}}}, nil
+	}
 	// postfix expression where index may be '*'
 	x, err := p.parsePrimary()
 	if err != nil {
